@@ -235,6 +235,10 @@ impl PortHandle {
             let p = &mut line(w, &path).to_port;
             if let Some((at, kind)) = p.read_fault {
                 if p.total_read >= at {
+                    // transient kinds are reported once, the line is intact afterwards
+                    if matches!(kind, io::ErrorKind::Interrupted | io::ErrorKind::WouldBlock) {
+                        p.read_fault = None;
+                    }
                     w.event("serial_read_err", 0, 0);
                     return Poll::Ready(Err(io::Error::from(kind)));
                 }
